@@ -474,6 +474,20 @@ func (e *Engine) evCall(c *ast.CallExpr, st *State) []Value {
 	}
 	// interface method
 	if se, ok := fun.(*ast.SelectorExpr); ok && recv != nil {
+		if e.c != nil && e.spec == 0 && e.bound == 0 {
+			// a method call on a nil interface value panics. The obligation is generated only where a contract claims it
+			// (`claim[Cxx] nilifc[EXPR]`): interface values are non-nil by construction in most of the code under contract
+			// and the obligation would need that stated everywhere.
+			nm := "nilifc[" + strings.ReplaceAll(exprStr(se.X), " ", "") + "]"
+			for _, cl := range e.c.Claims {
+				if strings.Contains(nm, cl.Text) {
+					if _, isI := types.Unalias(recv.Typ).Underlying().(*types.Interface); isI {
+						e.oblige(st, "nilifc", not(e.isNil(*recv)), se.Pos(), "nilifc"+strings.ReplaceAll(exprStr(se.X), " ", "")+": method call on a nil interface value")
+					}
+					break
+				}
+			}
+		}
 		if strings.HasPrefix(recv.T, "(mk-ifc ") {
 			// the receiver was boxed from a value of a known concrete type: the call is resolved statically
 			var id int
